@@ -724,3 +724,23 @@ func MuRUnlock(m *MutexState) {
 	s.setVal(unsafe.Pointer(m), int64(-m.readers))
 	s.note(Event{Kind: OpRUnlock, Obj: unsafe.Pointer(m)})
 }
+
+// Point is a generic scheduling point for operations the shims perform themselves (typed atomic
+// values whose content the scheduler need not track): kind is OpLoad for reads, OpStore for writes.
+func Point(kind OpKind, obj unsafe.Pointer) {
+	s := active
+	if s == nil {
+		return
+	}
+	if kind == OpLoad {
+		// not a spin candidate the scheduler can reason about (value unknown): plain point
+		s.cur.lastAddr = nil
+		s.point(kind, obj)
+		s.note(Event{Kind: kind, Obj: obj})
+		return
+	}
+	s.cur.lastAddr = nil
+	s.point(kind, obj)
+	s.wrote(obj)
+	s.note(Event{Kind: kind, Obj: obj})
+}
